@@ -29,7 +29,7 @@ def back_kwargs(opts):
     return kw
 
 
-def one_case(spec, opts, fault):
+def one_case(spec, opts, fault, ftype="exception"):
     """returns (list of (sig, detail), steps of the inner run, success flag)"""
     out = []
     a = runner.prepare(spec, opts)
@@ -37,17 +37,17 @@ def one_case(spec, opts, fault):
     before = structure(a)
     names_before = [t.ID for t in a.project.workflow.task_list]
     ex = runner.Exec(spec, opts)
-    bootstrap.set_observer(runner.make_observer(ex, phases=(), fault=fault))
+    bootstrap.set_observer(runner.make_observer(ex, phases=(), fault=fault, fault_type=runner.InjectedInterrupt if ftype == "interrupt" else runner.InjectedFault))
     err = None
     try:
         a.project.backward_simulate(**back_kwargs(opts))
-    except runner.InjectedFault:
+    except (runner.InjectedFault, runner.InjectedInterrupt):
         err = "injected"
     except Exception as e:
         err = repr(e)
     finally:
         bootstrap.clear_observer()
-    tag = "after-injected-exception" if fault else "after-normal-run"
+    tag = ("after-injected-%s" % ftype) if fault else "after-normal-run"
     if err is not None and err != "injected":
         out.append(("C17:backward_simulate-raised:%s" % err.split("(")[0], {"error": err}))
     if fault and err is None:
@@ -110,15 +110,16 @@ def work(chunk):
             col.nontrivial.add(hash((key, "ok")))
         for t in range(0, steps + 1):
             for ph in PHASES:
-                got, st2, ok2 = one_case(spec, opts, (t, ph))
-                if ok2 is None and not got:
-                    continue
-                col.evaluations += 1
-                col.checks["c17.fault"] += 1
-                col.transitions.add(hash((key, t, ph)))
-                col.nontrivial.add(hash((key, t, ph)))
-                for sig, det in got:
-                    col.violation({"property": "C17", "sig": sig, "kind": "back", "spec": spec, "opts": opts, "fault": [t, ph], "detail": det})
+                for ftype in ("exception", "interrupt"):
+                    got, st2, ok2 = one_case(spec, opts, (t, ph), ftype)
+                    if ok2 is None and not got:
+                        continue
+                    col.evaluations += 1
+                    col.checks["c17.fault"] += 1
+                    col.transitions.add(hash((key, t, ph, ftype)))
+                    col.nontrivial.add(hash((key, t, ph, ftype)))
+                    for sig, det in got:
+                        col.violation({"property": "C17", "sig": sig, "kind": "back", "spec": spec, "opts": opts, "fault": [t, ph], "ftype": ftype, "detail": det})
         if len(col.samples) < 2:
             col.samples.append({"spec": spec, "opts": opts, "fault_points": "every (step, phase) of the inner run: steps 0..%d x %s" % (steps, list(PHASES))})
     return col
@@ -151,7 +152,7 @@ def run(tier, seed):
     meta = {
         "level": "fault_enumeration",
         "rule": "for every FS (thorough: FS/SS/FF) workflow on 3 tasks x works {1,2} x {POOL1,POOL2} x due-time vectors x considering_due_time_of_tail_tasks x reverse_log_information x absence {[],[1]}, "
-        "and facility/conveyor/nested models: backward_simulate is run once normally and once for EVERY (step, phase) of its inner run with an exception raised from the step observer at that point; "
+        "and facility/conveyor/nested models: backward_simulate is run once normally and once for EVERY (step, phase) of its inner run with an abort raised from the step observer at that point - once an Exception subclass, once a BaseException that is not an Exception (like KeyboardInterrupt); "
         "afterwards the identity and order of every input/output task list, every workplace input/output list and the task list are compared with before, a forward simulate is compared with an untouched "
         "twin, and for successful runs the FS clause is checked on the logs in forward-time reading together with log alignment; non-trivial = distinct (model, options, fault point)",
         "bounds": {"models_x_options": len(its), "fault_points": "all (step, phase) of the inner run"},
@@ -163,5 +164,5 @@ def run(tier, seed):
 
 
 def replay(v):
-    got, steps, ok = one_case(v["spec"], v["opts"], tuple(v["fault"]) if v.get("fault") else None)
+    got, steps, ok = one_case(v["spec"], v["opts"], tuple(v["fault"]) if v.get("fault") else None, v.get("ftype") or "exception")
     return [{"sig": s, "detail": d} for s, d in got]
